@@ -87,9 +87,9 @@ var c03Symbols = func() []c03Sym {
 		c03Sym{Name: "ZB0start", Op: frame.OpBinary, Rsv1: true, Z: c03ZStart, Plain: 1, onlyOn: true},
 		c03Sym{Name: "ZC0part", Op: frame.OpCont, Z: c03ZPart, onlyOn: true},
 		c03Sym{Name: "ZC1rest", Op: frame.OpCont, Fin: true, Z: c03ZRest, onlyOn: true},
-		c03Sym{Name: "ZFT1", Op: frame.OpText, Fin: true, Rsv1: true, Z: c03ZBFWhole, Plain: 0, onlyN: true},
-		c03Sym{Name: "ZFB0start", Op: frame.OpBinary, Rsv1: true, Z: c03ZBFStart, Plain: 1, onlyN: true},
-		c03Sym{Name: "ZFB0allbuttail", Op: frame.OpBinary, Rsv1: true, Z: c03ZBFStartTail, Plain: 1, onlyN: true},
+		c03Sym{Name: "ZFT1", Op: frame.OpText, Fin: true, Rsv1: true, Z: c03ZBFWhole, Plain: 0, onlyOn: true},
+		c03Sym{Name: "ZFB0start", Op: frame.OpBinary, Rsv1: true, Z: c03ZBFStart, Plain: 1, onlyOn: true},
+		c03Sym{Name: "ZFB0allbuttail", Op: frame.OpBinary, Rsv1: true, Z: c03ZBFStartTail, Plain: 1, onlyOn: true},
 		// control frames
 		c03Sym{Name: "PingE", Op: frame.OpPing, Fin: true},
 		c03Sym{Name: "Ping125", Op: frame.OpPing, Fin: true, Payload: c03Fill(125)},
